@@ -608,6 +608,80 @@ def a7(repo: Repo) -> RuleResult:
                 ok = True
     if not ok:
         res.bad(Finding("A7", "compiler/bitproto/utils.py", cc.lineno, "conditional_cache", "", "the wrapped function is not executed directly while the condition is false", tag="conditional_cache"))
+    # memoised results are shared objects: no caller may mutate them in place
+    MUT = {"append", "extend", "insert", "pop", "remove", "clear", "update", "setdefault", "popitem", "add", "discard", "sort", "reverse"}
+    memo: Set[str] = set()  # method names whose result is the cache's own object
+    for c in m.all_classes():
+        if c.rel != AST:
+            continue
+        for name, fi in c.methods.items():
+            if {"cache", "lru_cache", "cache_if_frozen", "cached_property"} & set(fi.decorators):
+                memo.add(name)
+    # functions that hand a memoised result on unchanged
+    changed = True
+    while changed:
+        changed = False
+        for c in m.all_classes():
+            if c.rel != AST:
+                continue
+            for name, fi in c.methods.items():
+                if name in memo:
+                    continue
+                rets = [n for n in ast.walk(fi.node) if isinstance(n, ast.Return) and n.value is not None]
+                if rets and all(isinstance(r.value, ast.Call) and isinstance(r.value.func, ast.Attribute) and r.value.func.attr in memo for r in rets):
+                    memo.add(name)
+                    changed = True
+    n_sites = 0
+    for mod in m.mods.values():
+        if not mod.rel.startswith("compiler/bitproto/"):
+            continue
+        fns = list(mod.funcs.values()) + [f for c in mod.classes.values() for f in c.methods.values()]
+        for fi in fns:
+            # locals bound directly to a memoised call
+            bound: Dict[str, ast.AST] = {}
+            for n in ast.walk(fi.node):
+                if isinstance(n, (ast.Assign, ast.AnnAssign)) and n.value is not None:
+                    tgs = n.targets if isinstance(n, ast.Assign) else [n.target]
+                    v = n.value
+                    if isinstance(v, ast.Call) and isinstance(v.func, ast.Attribute) and v.func.attr in memo:
+                        for t in tgs:
+                            if isinstance(t, ast.Name):
+                                bound[t.id] = v
+                                n_sites += 1
+            for n in ast.walk(fi.node):
+                tgt = None
+                how = ""
+                if isinstance(n, ast.Call) and isinstance(n.func, ast.Attribute) and n.func.attr in MUT:
+                    tgt, how = n.func.value, f".{n.func.attr}()"
+                elif isinstance(n, (ast.Assign, ast.AugAssign)):
+                    for t in (n.targets if isinstance(n, ast.Assign) else [n.target]):
+                        if isinstance(t, ast.Subscript):
+                            tgt, how = t.value, "[...] ="
+                        elif isinstance(n, ast.AugAssign) and isinstance(t, ast.Name) and isinstance(n.op, ast.Add):
+                            tgt, how = t, "+="
+                elif isinstance(n, ast.Delete):
+                    for t in n.targets:
+                        if isinstance(t, ast.Subscript):
+                            tgt, how = t.value, "del [...]"
+                if tgt is None:
+                    continue
+                src_call = None
+                if isinstance(tgt, ast.Name) and tgt.id in bound:
+                    # not rebound to something fresh in between (any other assignment to the name)
+                    others = [a_ for a_ in ast.walk(fi.node) if isinstance(a_, (ast.Assign, ast.AnnAssign)) and any(isinstance(t_, ast.Name) and t_.id == tgt.id for t_ in (a_.targets if isinstance(a_, ast.Assign) else [a_.target])) and a_.value is not bound[tgt.id]]
+                    fresh = [a_ for a_ in others if a_.value is not None and not (isinstance(a_.value, ast.Call) and isinstance(a_.value.func, ast.Attribute) and a_.value.func.attr in memo)]
+                    if fresh and all(getattr(a_, "lineno", 0) > getattr(bound[tgt.id], "lineno", 0) and getattr(a_, "lineno", 0) < n.lineno for a_ in fresh):
+                        continue
+                    src_call = bound[tgt.id]
+                elif isinstance(tgt, ast.Call) and isinstance(tgt.func, ast.Attribute) and tgt.func.attr in memo:
+                    src_call = tgt
+                if src_call is None:
+                    continue
+                # inside the memoised function itself the list is still being built
+                if fi.node.name in memo and fi.cls is not None and fi.cls.rel == AST:
+                    continue
+                res.bad(Finding("A7", fi.rel, n.lineno, fi.qual, src_of(n)[:120], f"`{src_of(tgt)[:60]}` is the result of the memoised `{src_of(src_call.func)}` (the cache hands out its own list on a frozen node) and is mutated in place with `{how}`: every later caller with the same arguments - the renderers - sees the changed object", witness="compile a schema with a nested definition once with the linter and once with -q: the emission order differs", tag=f"{fi.qual}:memo-mutation:{tgt.id if isinstance(tgt, ast.Name) else 'call'}"))
+    res.inst(part="memo-results", memoised=len(memo), bound_sites=n_sites)
     # identity hash only inside safe_hash
     um = m.mod("bitproto/utils.py")
     for n in ast.walk(um.tree):
